@@ -223,6 +223,91 @@ theorem tick_schedule (e : Fsm) (b : Band) (table : Option Table) (lastTx0 : Nat
       · rw [h]; omega
     rw [if_neg this]
 
+/-! ## The tick with a clock that moves while it runs (`tickR`) -/
+
+theorem tickR_same (s : TickState) (port : PortMode) (n : Nat) : tickR s port n (n / 1000) n = tick s port n := rfl
+
+theorem enumHelloR_band (e : Fsm) (b : Band) (lastTx0 : Nat) (port : PortMode) (nowMs nowL : Nat) :
+    (enumHelloR e b lastTx0 port nowMs nowL).2.1.r = b.r ∧ (enumHelloR e b lastTx0 port nowMs nowL).2.1.ni = b.ni ∧
+    (enumHelloR e b lastTx0 port nowMs nowL).2.1.blockTs = b.blockTs ∧ (b.begun = true → (enumHelloR e b lastTx0 port nowMs nowL).2.1.begun = true) := by
+  unfold enumHelloR
+  by_cases h1 : b.helloTs > 0 ∧ nowMs ≥ b.helloTs
+  · rw [if_pos h1]
+    cases port <;> simp only [] <;>
+      (split
+       · exact ⟨rfl, rfl, rfl, fun h => h⟩
+       · simp only [bandDoHello, bandChooseHelloTime]
+         by_cases h3 : nowL + bandInterval b.ni < nowMs + X.helloMinIntervalMs
+         · simp only [h3, if_true]; first | exact ⟨trivial, trivial, trivial, fun _ => trivial⟩ | exact ⟨rfl, rfl, rfl, fun _ => rfl⟩ | simp
+         · simp only [h3, if_false]; first | exact ⟨trivial, trivial, trivial, fun _ => trivial⟩ | exact ⟨rfl, rfl, rfl, fun _ => rfl⟩ | simp)
+  · rw [if_neg h1]; exact ⟨rfl, rfl, rfl, fun h => h⟩
+
+theorem enumBlockR_holds (b bh : Band) (nowMs nowL : Nat) (hr : b.r < u32)
+    (h1 : bh.r = b.r) (h2 : bh.ni = b.ni) (h3 : bh.blockTs = b.blockTs) (h4 : b.begun = true → bh.begun = true) :
+    holdsC13Tick b (enumBlockR bh nowMs nowL) nowL = true := by
+  unfold enumBlockR
+  by_cases hb : bh.blockTs > 0 ∧ nowMs ≥ bh.blockTs
+  · rw [if_pos hb]
+    unfold holdsC13Tick
+    split
+    · have hint : (bandChooseHelloTime (bandUpdateStats bh nowL) nowL).helloTs ≥
+          nowL + loadInterval (bandChooseHelloTime (bandUpdateStats bh nowL) nowL).ni := by
+        simp only [bandChooseHelloTime, interval]; omega
+      have hni : (bandChooseHelloTime (bandUpdateStats bh nowL) nowL).ni = (if bh.r > 0 ∧ bh.begun = true then niFormula b.r else b.ni) := by
+        simp only [bandChooseHelloTime, bandUpdateStats]
+        split
+        · rw [h1, formula b.r hr]
+        · exact h2
+      have hr0 : (bandChooseHelloTime (bandUpdateStats bh nowL) nowL).r = 0 := rfl
+      simp only [hr0, decide_true, Bool.true_and, decide_eq_true hint, Bool.and_true]
+      rw [hni]
+      by_cases hc : b.r > 0 ∧ b.begun = true
+      · have hc' : bh.r > 0 ∧ bh.begun = true := ⟨by rw [h1]; exact hc.1, h4 hc.2⟩
+        simp [hc, hc']
+      · simp only [hc, if_false, Bool.and_true]
+        split <;> simp
+    · rfl
+  · rw [if_neg hb]
+    unfold holdsC13Tick
+    have : ¬ (bh.blockTs = nowL + 300 ∧ bh.blockTs ≠ b.blockTs) := fun h => h.2 h3
+    simp [this]
+
+/-- THE TICK THEOREM WITH A MOVING CLOCK: the block is judged over at the reading taken on entry (`nowMs`), but the new count's
+    Hello is scheduled from the reading taken WHEN it is scheduled (`nowL`, whatever it is): no sooner than the load formula
+    allows after that moment — a tick that has spent time transmitting or logging does not shorten the interval -/
+theorem tick_schedule_moving (e : Fsm) (b : Band) (table : Option Table) (lastTx0 : Nat) (port : PortMode) (nowMs nowL : Nat) (hr : b.r < u32) :
+    match (tickEnumStageR (some (e, some b)) table lastTx0 port nowMs nowL).1 with
+    | some (_, some b') => holdsC13Tick b b' nowL = true
+    | _ => True := by
+  unfold tickEnumStageR
+  simp only []
+  by_cases hs : (enumUpdate e b (tableEmptyOf table) (allCompleteOf table) (nowL / 1000)).1.state = 1
+  · simp only [hs, if_true]
+    have hb := enumUpdate_band e b _ _ _ hs
+    rw [hb]
+    obtain ⟨h1, h2, h3, h4⟩ := enumHelloR_band (enumUpdate e b (tableEmptyOf table) (allCompleteOf table) (nowL / 1000)).1 b lastTx0 port nowMs nowL
+    exact enumBlockR_holds b _ nowMs nowL hr h1 h2 h3 h4
+  · simp only [hs, if_false]
+    have hbt : (enumUpdate e b (tableEmptyOf table) (allCompleteOf table) (nowL / 1000)).2.blockTs = b.blockTs ∨
+        (enumUpdate e b (tableEmptyOf table) (allCompleteOf table) (nowL / 1000)).2.blockTs = 0 := by
+      unfold enumUpdate
+      by_cases h0 : e.state ≠ 0
+      · rw [if_pos h0]
+        by_cases ht : tableEmptyOf table = true
+        · rw [if_pos ht]; exact Or.inr rfl
+        · rw [if_neg ht]
+          by_cases ha : allCompleteOf table = true
+          · rw [if_pos ha]; exact Or.inl rfl
+          · rw [if_neg ha]; exact Or.inl rfl
+      · rw [if_neg h0]; exact Or.inl rfl
+    unfold holdsC13Tick
+    have : ¬ ((enumUpdate e b (tableEmptyOf table) (allCompleteOf table) (nowL / 1000)).2.blockTs = nowL + 300 ∧
+        (enumUpdate e b (tableEmptyOf table) (allCompleteOf table) (nowL / 1000)).2.blockTs ≠ b.blockTs) := by
+      rcases hbt with h | h
+      · exact fun hh => hh.2 h
+      · rw [h]; omega
+    rw [if_neg this]
+
 /-! ## r counts the Hellos of ONE block, over every history
 
 `./check C13` follows the count of Hellos heard since the block began on the specification side (reset when an enumeration
